@@ -587,17 +587,35 @@ def writeSplineF64 (k : Nat) (t : List JNum) (c : Option (List JNum)) (n : Nat) 
   .obj [("inner", .obj [("k", .num (natNum k)), ("t", .arr (t.map .num)),
     ("c", match c with | some xs => nd1 xs | none => .null), ("n", .num (natNum n))])]
 
-/-- a stored quote: currency names, float rate token, settlement as (written text, seconds) or none -/
+def nd1g (items : List JVal) : JVal :=
+  .obj [("v", .num (natNum 1)), ("dim", .arr [.num (natNum items.length)]), ("data", .arr items)]
+
+
+/-- a stored number: a float, or a first- / second-order number with its names and arrays -/
+inductive NumDoc where
+  | f64 (x : JNum)
+  | dual (re : JNum) (names : List String) (d : List JNum)
+  | dual2 (re : JNum) (names : List String) (d h : List JNum)
+
+
+/-- the document of a `Number` -/
+def writeNumber : NumDoc → JVal
+  | .f64 x => .obj [("F64", .num x)]
+  | .dual re names d => .obj [("Dual", writeDual re names d)]
+  | .dual2 re names d h => .obj [("Dual2", writeDual2 re names d h)]
+
+
+/-- a stored quote: currency names, rate, settlement as (written text, seconds) or none -/
 structure WQuote where
   lhs : String
   rhs : String
-  rate : JNum
+  rate : NumDoc
   settlement : Option (String × Int)
 
 def ccyDoc (c : String) : JVal := .obj [("name", .str c)]
 
 def writeFXRate (q : WQuote) : JVal :=
-  .obj [("pair", .arr [ccyDoc q.lhs, ccyDoc q.rhs]), ("rate", .obj [("F64", .num q.rate)]),
+  .obj [("pair", .arr [ccyDoc q.lhs, ccyDoc q.rhs]), ("rate", writeNumber q.rate),
         ("settlement", match q.settlement with | some (s, _) => .str s | none => .null)]
 
 /-- the document `FXRates::to_json` writes: the quotes and the currency list (first = base) -/
@@ -605,5 +623,38 @@ def writeFXRates (qs : List WQuote) (cs : List String) : JVal :=
   .obj [("fx_rates", .arr (qs.map writeFXRate)), ("currencies", .arr (cs.map ccyDoc))]
 
 def WQuote.shape (q : WQuote) : QuoteShape := ⟨q.lhs, q.rhs, q.settlement.map (·.2)⟩
+
+/-- the document `Cal::to_json` writes: holiday datetimes and weekday names, each in stored order -/
+def writeCal (hols mask : List String) : JVal :=
+  .obj [("holidays", .arr (hols.map .str)), ("week_mask", .arr (mask.map .str))]
+
+/-- the document `UnionCal::to_json` writes -/
+def writeUnionCal (cals : List (List String × List String)) (settle : Option (List (List String × List String))) :
+    JVal :=
+  .obj [("calendars", .arr (cals.map (fun c => writeCal c.1 c.2))),
+        ("settlement_calendars", match settle with
+          | some ss => .arr (ss.map (fun c => writeCal c.1 c.2))
+          | none => .null)]
+
+/-- the document `NamedCal::to_json` writes: the name only -/
+def writeNamedCal (name : String) : JVal := .obj [("name", .str name)]
+
+/-- the spline document with already written coefficient documents -/
+def writeSplineG (k : Nat) (t : List JNum) (c : Option (List JVal)) (n : Nat) : JVal :=
+  .obj [("inner", .obj [("k", .num (natNum k)), ("t", .arr (t.map .num)),
+    ("c", match c with | some items => nd1g items | none => .null), ("n", .num (natNum n))])]
+
+
+/-- the curve document around already written node and calendar documents -/
+def writeCurveG (nodesDoc calDoc : JVal) (interp id conv modi : String) (base : Option JNum) : JVal :=
+  .obj [("inner", .obj [
+    ("nodes", nodesDoc),
+    ("interpolator", .obj [(interp, .obj [])]),
+    ("id", .str id),
+    ("convention", .str conv),
+    ("modifier", .str modi),
+    ("index_base", match base with | some b => .num b | none => .null),
+    ("calendar", calDoc)])]
+
 
 end Rateslib.Load
